@@ -32,7 +32,25 @@ type c16Case struct {
 }
 
 func drawNum(t *rapid.T, table []int) int {
-	switch rapid.IntRange(0, 5).Draw(t, "numClass") {
+	switch rapid.IntRange(0, 6).Draw(t, "numClass") {
+	case 6:
+		// a number inside the range of the table that the table does not assign (the tables have gaps)
+		lo, hi := table[0], table[len(table)-1]
+		if hi > 600 {
+			hi = 600 // (ARM's private numbers lie far out)
+		}
+		start := rapid.IntRange(lo, hi).Draw(t, "numGapStart")
+		in := map[int]bool{}
+		for _, n := range table {
+			in[n] = true
+		}
+		for k := 0; k <= hi-lo; k++ {
+			n := lo + (start-lo+k)%(hi-lo+1)
+			if !in[n] {
+				return n
+			}
+		}
+		return hi + 1
 	case 0:
 		return rapid.IntRange(0, 5).Draw(t, "numSmall")
 	case 1:
